@@ -4,7 +4,33 @@ COMMON_TRUST = [
     "modelled, not verified: rustc + std (Vec::sort/dedup/binary_search, RangeInclusive, HashMap), isize as unbounded Int",
 ]
 
+SEARCH_TRUST = COMMON_TRUST + [
+    "Rc sharing of states/goals is modelled as value copying; closures (relation bodies) as a table of goal builders drawing fresh variables from a counter in the state (VarID::new is a global counter in the code)",
+    "eager solving of relation bodies is unfolded to a fixed nesting depth (solveAt), deeper nesting is paused",
+]
+
 PROPS = {
+    "C02": dict(
+        title="tree constraints (eq/diseq programs)",
+        props_module="PvModel.Props.C02",
+        rule="pure tree programs (1-6 atoms ==/!= over <=2 query + <=3 hidden variables, nested conde/fresh, compounds), each run as written and "
+             "under random permutations of every conjunction; targets: subsuming pairs, disequalities simplified/violated by later equalities; "
+             "observable: canonical answer terms + truth table of the reported constraints over an 8-element universe; non-trivial = an answer "
+             "carries constraints or there are >=2 answers; distinct = distinct case lines",
+        trusted=SEARCH_TRUST,
+        assumptions=["the oracle decides existence of hidden-variable values with an independent Robinson unifier (disequalities over an infinite universe)"],
+        open=["C02_answer_instances (lifting the state invariant through reification/purification to ground instances of reported answers) is carried by the correspondence and the oracle, not yet by a theorem"],
+    ),
+    "C05": dict(
+        title="depth-first search order",
+        props_module="PvModel.Props.C05",
+        rule="goal trees (conj/conde/disj/fresh over == leaves, member/append calls on bounded lists) inside dfs{}, observed as the sequence of states "
+             "the goal produces (raw mode) and, for the corpus, as query answers; oracle: independent recursive depth-first interpreter, compared "
+             "position by position; non-trivial = >=2 answers; distinct = distinct case lines",
+        trusted=SEARCH_TRUST,
+        assumptions=[],
+        open=[],
+    ),
     "C01": dict(
         title="unification (State::unify vs unifyF)",
         props_module="PvModel.Props.C01",
